@@ -234,6 +234,9 @@ type TopicSnap struct {
 	Sessions               map[string]types.Uid // sid -> uid attached
 	ChanSess               map[string]bool
 	HasCall                bool
+	CallSeq                int
+	CallParties            map[string]types.Uid // sid -> uid of the call parties
+	CallOriginator         string               // sid of the originator
 }
 
 type SessSnap struct {
@@ -268,6 +271,16 @@ func (w *simWorld) snapshot() *Snapshot {
 			ts.Sessions[s.sid] = pssd.uid
 			if pssd.isChanSub {
 				ts.ChanSess[s.sid] = true
+			}
+		}
+		if t.currentCall != nil {
+			ts.CallSeq = t.currentCall.seq
+			ts.CallParties = map[string]types.Uid{}
+			for sid, pd := range t.currentCall.parties {
+				ts.CallParties[sid] = pd.uid
+				if pd.isOriginator {
+					ts.CallOriginator = sid
+				}
 			}
 		}
 		sn.Topics[t.name] = ts
